@@ -40,6 +40,7 @@ from .constants import SecurityIssues
 from .decorators import KeyAction
 
 from .errors import PGPDecryptionError
+from .errors import PGPEncryptionError
 from .errors import PGPError
 
 from .packet import Key
@@ -1255,6 +1256,11 @@ class PGPMessage(Armorable, PGPObject):
         :raises: :py:exc:`~errors.PGPEncryptionError`
         :returns: A new :py:obj:`PGPMessage` containing the encrypted contents of this message.
         """
+        if self.type == 'cleartext':
+            # the cleartext signature framework (RFC 4880 section 7) is an armor form, not a packet sequence: the
+            # packets of such a message are its signatures alone, and encrypting those would drop the text
+            raise PGPEncryptionError("A cleartext message cannot be encrypted; create the message without cleartext=True")
+
         cipher_algo = prefs.pop('cipher', SymmetricKeyAlgorithm.AES256)
         hash_algo = prefs.pop('hash', HashAlgorithm.SHA256)
 
@@ -2640,6 +2646,11 @@ class PGPKey(Armorable, ParentRef, PGPObject):
                        preference defaults and selection validation.
         :type user: ``str``, ``unicode``
         """
+        if message.type == 'cleartext':
+            # the cleartext signature framework (RFC 4880 section 7) is an armor form, not a packet sequence: the
+            # packets of such a message are its signatures alone, and encrypting those would drop the text
+            raise PGPEncryptionError("A cleartext message cannot be encrypted; create the message without cleartext=True")
+
         user = prefs.pop('user', None)
         uid = None
         if user is not None:
